@@ -446,6 +446,38 @@ Theorem c14_sendpb_skip_empty_refuted :
 Proof. exact sendpb_skip_empty_refuted. Qed.
 Print Assumptions c14_sendpb_skip_empty_refuted.
 
+(* ---- Client.SendToAll ---------------------------------------------------------------------- *)
+
+(* every roster, whoever fails: one slot per server, slot i = the reply of server i, empty
+   where the request to server i failed; an error is returned iff some request failed *)
+Theorem c14_send_to_all_slots : forall outs,
+  fst (send_to_all outs) = outs /\ snd (send_to_all outs) = existsb is_none outs.
+Proof. exact send_to_all_slots. Qed.
+Print Assumptions c14_send_to_all_slots.
+
+(* the variant that appends the successes only (seeded change C14-H) *)
+Theorem c14_send_to_all_compact_refuted :
+  fst (send_to_all_compact [None; Some (ROk 6 (Msg "q" 1 true ""))]) = [Some (ROk 6 (Msg "q" 1 true ""))].
+Proof. exact send_to_all_compact_refuted. Qed.
+Print Assumptions c14_send_to_all_compact_refuted.
+
+(* ---- what a handler keeps of a request stays what the request carried ------------------------ *)
+
+(* a storing handler (Put keeps the byte slice of its argument, Get returns it): any sequence
+   of Put / Get of any clients over kept and single-use connections -- Get returns the data
+   of the last Put of that key *)
+Theorem c14_store_get_returns_put : forall keeps ops, store_run false keeps [] ops = store_spec [] ops.
+Proof. exact store_get_returns_put. Qed.
+Print Assumptions c14_store_get_returns_put.
+
+(* the variant with one read buffer per connection (seeded change C14-G) *)
+Theorem c14_store_reuse_buffer_refuted :
+  let ops := [SOp 0 (SPut "k1" "AAAA"); SOp 0 (SPut "k2" "BBBB"); SOp 0 (SGet "k1")] in
+  store_run true [true] [] ops <> store_spec [] ops /\
+  store_run true [false] [] ops = store_spec [] ops.
+Proof. exact store_reuse_buffer_refuted. Qed.
+Print Assumptions c14_store_reuse_buffer_refuted.
+
 (* ---- the panic barrier covers every kind of registered handler ----------------------------- *)
 
 (* The model of callInterfaceFunc turns a panic into an error for ordinary and streaming
